@@ -498,8 +498,9 @@ def _random_case(rnd):
 
 
 def _size(case):
-    return (len(case["tests"]), case.get("repeat", 1), case.get("hostile") != "plain",
-            case.get("where") not in ("message", "test-name"),
+    return (case.get("where") not in ("message", "test-name"), case.get("repeat", 1),
+            len(case["tests"]) > 3, sum(len(t.get("sub", ())) for t in case["tests"]),
+            len(case["tests"]),
             sum(len(t.get("msg", "")) + len(t["name"]) for t in case["tests"]), str(case))
 
 
